@@ -153,18 +153,21 @@ def some(v):
 # crate metadata: enum variants and struct fields, from the sources
 # --------------------------------------------------------------------------
 
-def crate_types(src_texts):
+def crate_types(src_texts, module_names=None):
     enums, structs = {}, {}
-    for text in src_texts:
+    for ti, text in enumerate(src_texts):
+        mod = module_names[ti] if module_names and ti < len(module_names) else None
         text = re.sub(r"/\*.*?\*/", "", text, flags=re.S)
         text = re.sub(r"//[^\n]*", "", text)
-        for m in re.finditer(r"\benum\s+(\w+)\s*\{(.*?)\n\}", text, re.S):
+        for m in re.finditer(r"\benum\s+(\w+)\s*\{(.*?)\n\s*\}", text, re.S):
             vs = []
             for part in split_top(m.group(2)):
                 mm = re.match(r"\s*(\w+)", part)
                 if mm:
                     vs.append(mm.group(1))
-            enums[m.group(1)] = vs
+            enums.setdefault(m.group(1), vs)            # (the first module listed wins the short name)
+            if mod:
+                enums[mod + "::" + m.group(1)] = vs     # two modules may declare enums of the same name
         for m in re.finditer(r"\bstruct\s+(\w+)(?:<[^>]*>)?\s*\{(.*?)\n\}", text, re.S):
             fs = []
             for part in split_top(m.group(2)):
@@ -252,9 +255,9 @@ class State:
 
 
 class Interp:
-    def __init__(self, mirtext, src_texts, models, fn_index):
+    def __init__(self, mirtext, src_texts, models, fn_index, module_names=None):
         self.text = mirtext
-        self.enums, self.structs = crate_types(src_texts)
+        self.enums, self.structs = crate_types(src_texts, module_names)
         self.src_sort = src_texts[0] if src_texts else ""
         self.module_sources = {}    # module name -> text of the generated copy (line numbers as in the MIR's impl headers)
         self.models = models
@@ -455,7 +458,16 @@ class Interp:
             raise Unsupported("field of %r in %r" % (type(v).__name__, s))
         raise Unsupported("place %r" % s)
 
+    def enum_key(self, path):
+        """the key of self.enums for a (possibly qualified) type path: module-qualified if known, else the short name"""
+        segs = re.sub(r"::<.*$", "", path).split("::")
+        if len(segs) >= 2 and "::".join(segs[-2:]) in self.enums:
+            return "::".join(segs[-2:])
+        return segs[-1]
+
     def enum_variants(self, ty):
+        if ty in self.enums:
+            return self.enums[ty]
         ty = ty.split("::")[-1]
         if ty in STD_ENUMS:
             return STD_ENUMS[ty]
@@ -530,6 +542,10 @@ class Interp:
             return Str(("lit", m.group(1)))
         if c.startswith("b\""):
             return Str(("bytes", c))
+        m = re.fullmatch(r"'(\\?.)'", c)
+        if m:
+            ch = m.group(1)
+            return {"\\n": 10, "\\t": 9, "\\r": 13, "\\\\": 92, "\\'": 39, "\\0": 0}.get(ch, ord(ch[-1]))      # a char constant: its code point
         m = re.fullmatch(r"ZeroSized: (\{closure@[^}]*\})", c)
         if m:
             return Agg([], m.group(1))      # a closure that captures nothing
@@ -588,6 +604,15 @@ class Interp:
             if op == "Add":
                 return a + b
             return a - b
+        m = re.fullmatch(r"PtrMetadata\((.+)\)", rv)
+        if m:
+            v = self.read_operand_val(st, m.group(1))
+            v = v.get() if isinstance(v, Ref) else v
+            if isinstance(v, VecV):
+                return len(v.items)
+            if isinstance(v, list):
+                return len(v)
+            raise Unsupported("PtrMetadata of %s" % type(v).__name__)        # (the length of a slice reference)
         m = re.fullmatch(r"Not\((.+)\)", rv)
         if m:
             v = self.read_operand_val(st, m.group(1))
@@ -629,7 +654,7 @@ class Interp:
         # enum variant / tuple struct  Path::<..>::Variant(args) | Path::Variant
         m = re.fullmatch(r"(.+?)::(\w+)(?:\((.*)\))?", rv)
         if m:
-            ty = re.sub(r"::<.*$", "", m.group(1)).split("::")[-1]
+            ty = self.enum_key(m.group(1))
             var = m.group(2)
             args = [self.read_operand_val(st, a) for a in split_top(m.group(3))] if m.group(3) else []
             try:
@@ -804,7 +829,9 @@ class Interp:
                     except Unsupported as u:
                         fr = st.frames[-1]
                         raise Unsupported("%s [in %s %s: %s]" % (u, fr.fn.name.split("::")[-1], fr.bb, fr.fn.blocks[fr.bb][1][:160]))
-                finish(self, st)
+                if finish(self, st) == "continue":      # (finish pushed another call onto the state: keep running it)
+                    work.append(st)
+                    continue
                 paths += 1
                 if paths > max_paths:
                     raise Budget("path budget exhausted")
